@@ -27,7 +27,9 @@ type Handler struct {
 	lockFile  *ControlFile
 	tempFile  *ControlFile
 
-	closed bool
+	// created is set when this handler itself has created the file at path.
+	created bool
+	closed  bool
 }
 
 func NewHandlerWithoutLock(ctx context.Context, path string, defaultWaitTimeout time.Duration, retryDelay time.Duration) (*Handler, error) {
@@ -104,6 +106,7 @@ func NewHandlerForCreate(path string) (*Handler, error) {
 		return h, closeIsolatedHandler(h, err)
 	}
 	h.fp = fp
+	h.created = true
 	return h, nil
 }
 
@@ -170,7 +173,8 @@ func (h *Handler) close() error {
 		h.fp = nil
 	}
 
-	if h.openType == ForCreate && Exists(h.path) {
+	// A file that this handler has not created belongs to another process.
+	if h.openType == ForCreate && h.created && Exists(h.path) {
 		if err := os.Remove(h.path); err != nil {
 			return err
 		}
@@ -254,7 +258,7 @@ func (h *Handler) closeWithErrors() error {
 		}
 	}
 
-	if h.openType == ForCreate && Exists(h.path) {
+	if h.openType == ForCreate && h.created && Exists(h.path) {
 		if err := os.Remove(h.path); err != nil {
 			errs = append(errs, err)
 		}
